@@ -72,14 +72,17 @@ def _plan(draw):
     if fmt in ("csv", "lod_csv"):
         if draw(st.integers(0, 2)) == 0:
             kw["sep"] = draw(st.sampled_from([";", "\t", "|"]))
-        if draw(st.integers(0, 3)) == 0 and "columns" not in kw and "dtypes" not in kw:
-            kw["header"] = False
+        if draw(st.integers(0, 3)) == 0 and "columns" not in kw:
+            kw["header"] = False                  # generated names a, b, ... coincide with the written names
     if fmt in ("csv", "json", "geojson", "lod_json", "lod_csv") and draw(st.integers(0, 2)) == 0:
         kw["encoding"] = draw(st.sampled_from(["latin-1", "utf-16", "utf-8"]))
     if fmt in ("geojson", "lod_json") and draw(st.integers(0, 3)) == 0:
         kw["parse_int_float"] = True
     if fmt == "npz" and draw(st.booleans()):
         kw["allow_pickle"] = draw(st.booleans())
+    if fmt == "lod_json" and draw(st.integers(0, 2)) == 0:
+        kw["nested"] = True
+        kw.get("dtypes", {}).pop(names[-1], None)
     return {"fmt": fmt, "frame": {"n": n, "cols": cols}, "kw": kw}
 
 
@@ -92,7 +95,7 @@ def nontrivial(plan):
     names = [c["name"] for c in plan["frame"]["cols"]]
     if "columns" in kw and kw["columns"] != [x for x in names if x in kw["columns"]]:
         return True
-    return bool(set(kw) - {"columns"})
+    return bool(set(kw) - {"columns", "nested"}) or ("nested" in kw and "columns" in kw)
 
 
 _DT = {"float": float, "str": str, "object": object}
@@ -124,7 +127,13 @@ def _write(plan, ctx):
             json.dump({"type": "FeatureCollection", "features": feats, "name": "t"}, f, ensure_ascii=False)
     elif fmt == "lod_json":
         path = ctx.path("l.json")
-        data.to_list_of_dicts().write_json(path, encoding=enc)
+        items = [{c["name"]: c["vals"][i] for c in fp["cols"]} for i in range(fp["n"])]
+        if kw.get("nested"):
+            for i, it in enumerate(items):
+                # a nested object whose inner keys overlap the outer key names
+                it[fp["cols"][-1]["name"]] = {"a": i, "b": {"a": 1, "zz": None}, "lat": 0.5}
+        with open(path, "w", encoding=enc) as f:
+            json.dump(items, f, ensure_ascii=False)
     elif fmt == "lod_csv":
         path = ctx.path("l.csv")
         lod = di.ListOfDicts([{c["name"]: str(c["vals"][i]) for c in fp["cols"]} for i in range(fp["n"])])
@@ -143,7 +152,7 @@ def _kwargs(plan, restrict=True):
             out["types"] = {k: {"float": float, "str": str}[v] for k, v in kw["dtypes"].items()}
         else:
             out["dtypes"] = {k: _DT[v] for k, v in kw["dtypes"].items()}
-    for k in ("sep", "header", "encoding", "allow_pickle"):
+    for k in ("sep", "header", "encoding", "allow_pickle"):      # ("nested" only shapes the file)
         if k in kw:
             out[k] = kw[k]
     if kw.get("parse_int_float"):
@@ -192,7 +201,15 @@ def check(plan, ctx):
     path = _write(plan, ctx)
     alias, method = _targets(fmt)
     kwargs = _kwargs(plan)
+    frozen = repr(sorted((k, repr(v)) for k, v in kwargs.items()))
     m = _try(method, path, **kwargs)
+    if repr(sorted((k, repr(v)) for k, v in kwargs.items())) != frozen:
+        raise Violation("a reader changed the argument objects it was given (columns / dtypes / keys / types)",
+                        before=frozen, after=repr(sorted((k, repr(v)) for k, v in kwargs.items())))
+    m2 = _try(method, path, **kwargs)
+    if m[0] == "ok" and (m2[0] != "ok" or _describe(m2[1]) != _describe(m[1])):
+        raise Violation("reading the same file twice with the same argument objects gives different results",
+                        first=_describe(m[1]), second=_describe(m2[1]) if m2[0] == "ok" else m2[1:])
     if alias is not None:
         a = _try(alias, path, **kwargs)
         if a[0] != m[0] or (a[0] == "exc" and a[1] != m[1]):
